@@ -626,7 +626,7 @@ fn full_case(ctx: &mut Ctx, c: &Cfg, ps: &[P], single: bool, tag: &str) {
     };
     exec(ctx, &mut s, &format!("iter_take {}", k));
     exec(ctx, &mut s, "iter");
-    if ctx.rng.bool() {
+    if ctx.rng.chance(3, 4) {
         exec(ctx, &mut s, "into_iter");
     } else {
         exec(ctx, &mut s, "into_iter_raw");
